@@ -183,10 +183,10 @@ PLAN['C08'] = {
 }
 
 
-def ops(name, acts, maxn, invariants=None, **kw):
+def ops(name, acts, maxn, invariants=None, minn=0, maxreq=99, **kw):
     st = {
         'kind': 'gen_replay', 'name': name, 'module': 'ProofOps', 'fam': 'ops', 'spec': 'Spec',
-        'constants': {'MaxN': maxn, 'Acts': S(acts), 'MaxPerm': 3},
+        'constants': {'MaxN': maxn, 'Acts': S(acts), 'MaxPerm': 3, 'MinN': minn, 'MaxReq': maxreq},
         'invariants': invariants or [],
     }
     st.update(kw)
@@ -452,8 +452,8 @@ PLAN['C14']['bounds'] = {'quick': 'proof operations: n<=5, all states; partial f
 # --------------------------------------------------------------------------- C15
 PLAN['C15'] = {
     'stages': lambda tier, seed: (
-        [core('sched_bfs', ['mod'], 7, 3, fam='sched', trace_module='ScheduleTrace', x='maxtrace=6000', invariants=False)] if tier == 'quick' else
-        [core('sched_bfs', ['mod'], 9, 4, fam='sched', trace_module='ScheduleTrace', x='maxtrace=20000', invariants=False)]),
+        [core('sched_bfs', ['mod'], 9, 3, fam='sched', trace_module='ScheduleTrace', x='maxtrace=6000', invariants=False)] if tier == 'quick' else
+        [core('sched_bfs', ['mod'], 10, 5, fam='sched', trace_module='ScheduleTrace', x='maxtrace=20000', invariants=False, timeout=14000)]),
     'rule': 'the block histories are the behaviours of spec/Core.tla (every deletion subset, 0..MaxAdds additions, from every '
             'reachable state, each with its breadth-first witness history); the harness records every block of a history in a '
             'CachingScheduleTracker - deletion targets are the canonical positions of the specification, i.e. what a prover emits - '
@@ -463,7 +463,7 @@ PLAN['C15'] = {
             'the limit alive at once, complete when the limit does not bind); a sample of the outputs and every failing one are '
             'validated by TLC against spec/ScheduleTrace.tla, which also checks that the relation is satisfiable for that '
             'history (R->T). Non-trivial: a history that deletes at least one leaf; distinct by (witness history, block).',
-    'bounds': {'quick': 'n<=7, adds 0..3, all deletion subsets, limits 1..n+1', 'thorough': 'n<=9, adds 0..4, all deletion subsets, limits 1..n+1'},
+    'bounds': {'quick': 'n<=9, adds 0..3, all deletion subsets, limits 1..n+1', 'thorough': 'n<=10, adds 0..5, all deletion subsets, limits 1..n+1'},
     'exhaustive': {'quick': True, 'thorough': True},
     'assumptions': ['histories are breadth-first witnesses plus one block (shortest histories to every state), not all histories of a given length',
                     'deletion targets are given in ascending slot order'],
@@ -596,3 +596,16 @@ for _p in ('C01', 'C11'):
                          'hashes, adding leaf by leaf over the trailing one-bits of the count) and TLC checks over all block histories '
                          'in bounds that it equals the history-free Forest!Roots(n, live) - hence independence of batching - and that the '
                          'destroyed roots and recomputed (position, hash) pairs equal UpdateDataRef.')
+
+
+# C14 wide: larger forests (6..9 leaves, every live set) with small request sets
+_c14b = PLAN['C14']['stages']
+PLAN['C14']['stages'] = lambda tier, seed: (
+    _c14b(tier, seed) +
+    ([ops('ops_missing_wide', ['missing'], 8, minn=8, maxreq=2),
+      ops('ops_add_wide', ['addproof'], 8, minn=8, maxreq=2)] if tier == 'quick' else
+     [ops('ops_missing_wide', ['missing'], 10, minn=8, maxreq=2, timeout=14000),
+      ops('ops_add_wide', ['addproof'], 10, minn=8, maxreq=2, timeout=14000),
+      ops('ops_subset_wide', ['subset'], 9, minn=8, maxreq=3, timeout=14000)]))
+PLAN['C14']['bounds'] = {'quick': PLAN['C14']['bounds']['quick'] + '; wide: every state with 8 leaves, request sets of at most 2 leaves',
+                         'thorough': PLAN['C14']['bounds']['thorough'] + '; wide: every state with 8..10 leaves, request sets of at most 2 (3 for restriction) leaves'}
